@@ -272,12 +272,12 @@ std::vector<at::Tensor> amen_solve(
 
 
             double norm = torch::norm(Phis[k]).item<double>();
-            norm = norm>0 ? norm : 0.0;
+            norm = norm>0 ? norm : 1.0;
             normA[k-1] = norm;
             Phis[k] = Phis[k] / norm;
 
             norm = torch::norm(Phis_b[k]).item<double>();
-            norm = norm>0 ? norm : 0.0;
+            norm = norm>0 ? norm : 1.0;
             normb[k-1] = norm;
             Phis_b[k] = Phis_b[k] / norm;
             
